@@ -193,3 +193,38 @@ Theorem C02_map2_nk_merge_idem (H : list (oprec (mop (mop oop)))) :
   m2hist_ok_nk H -> forall (s : cmap (cmap orswot)) (K : gset nat), m2reach_nk H s K -> mmerge vo2 s s = s.
 Proof. exact (map2_merge_idem_nk H). Qed.
 Print Assumptions C02_map2_nk_merge_idem.
+
+(** Map<K, Orswot> WITH key removes and merges, in the fragment the known findings leave: members are added under keys and keys are removed (no nested remove: T3), and every key that some key remove names is updated at most once by each actor ([km_once]: T2 needs two updates of one actor): merge is commutative, associative and idempotent (Leibniz, complete states) on all reachable states (proofs/MapOrswotKM.v) *)
+From Crdt Require Import model.Orswot model.Map spec.System spec.OrswotSpec spec.OrswotSystem spec.MapSpec spec.MapSystem spec.MapOrswotSpec spec.MapOrswotKM proofs.MapOrswotKM proofs.MapOrswotKMCor.
+Theorem C02_mapor_km_merge_comm (H : list (oprec (mop oop))) :
+  mohist_ok_km H -> km_once H -> forall (s1 : cmap orswot) (K1 : gset nat) (s2 : cmap orswot) (K2 : gset nat),
+  moreach_km H s1 K1 -> moreach_km H s2 K2 -> mmerge orswot_valops s1 s2 = mmerge orswot_valops s2 s1.
+Proof. exact (mapor_merge_comm_km H). Qed.
+Print Assumptions C02_mapor_km_merge_comm.
+
+Theorem C02_mapor_km_merge_assoc (H : list (oprec (mop oop))) :
+  mohist_ok_km H -> km_once H -> forall (s1 : cmap orswot) (K1 : gset nat) (s2 : cmap orswot) (K2 : gset nat) (s3 : cmap orswot) (K3 : gset nat),
+  moreach_km H s1 K1 -> moreach_km H s2 K2 -> moreach_km H s3 K3 ->
+  mmerge orswot_valops (mmerge orswot_valops s1 s2) s3 = mmerge orswot_valops s1 (mmerge orswot_valops s2 s3).
+Proof. exact (mapor_merge_assoc_km H). Qed.
+Print Assumptions C02_mapor_km_merge_assoc.
+
+Theorem C02_mapor_km_merge_idem (H : list (oprec (mop oop))) :
+  mohist_ok_km H -> km_once H -> forall (s : cmap orswot) (K : gset nat), moreach_km H s K -> mmerge orswot_valops s s = s.
+Proof. exact (mapor_merge_idem_km H). Qed.
+Print Assumptions C02_mapor_km_merge_idem.
+
+(** the hypothesis [km_once] is needed (known finding T2): actor 2 adds 8 then 9 under key 0, actor 3 removes key 0 having seen only
+    the first add; merging the two replicas in either order resurrects member 8 *)
+Theorem C02_mapor_km_once_needed :
+  exists (H : list (oprec (mop oop))) (sA sB sD : cmap orswot) (KA KB : gset nat),
+    mohist_ok_km H /\ ~ km_once H /\
+    moreach_km H sA KA /\ moreach_km H sB KB /\ moreach_km H (mmerge orswot_valops sB sA) (KB ∪ KA) /\
+    moreach_km H sD (KB ∪ KA) /\
+    mmerge orswot_valops sB sA <> sD /\ mmerge orswot_valops sA sB <> sD /\
+    mo_entries (known_ops H (KB ∪ KA)) 0 = {[9 := {[2 := 2]}]} /\
+    mo_state_entries sD 0 = {[9 := {[2 := 2]}]} /\
+    mo_state_entries (mmerge orswot_valops sB sA) 0 = {[8 := {[2 := 1]}; 9 := {[2 := 2]}]} /\
+    mapor_km_ok H (KB ∪ KA) sD = true /\ mapor_km_ok H (KB ∪ KA) (mmerge orswot_valops sB sA) = false.
+Proof. exact km_once_needed_closed. Qed.
+Print Assumptions C02_mapor_km_once_needed.
